@@ -430,8 +430,11 @@ class HuberNorm(Functional):
         else:
             # branches are functions of the squared l2 norm so that the inner branch does not
             # differentiate through a square root (NaN gradient at x = 0)
-            self._call_lt_branch = lambda xl2sq: 0.5 * xl2sq
-            self._call_gt_branch = lambda xl2sq: self.delta * (snp.sqrt(xl2sq) - self.delta / 2.0)
+            # delta is an operand of the branches (not a value closed over): the traced
+            # branches are cached by lax.cond, so a closed-over delta would be frozen at
+            # the value it had when the functional was first evaluated
+            self._call_lt_branch = lambda xl2sq, delta: 0.5 * xl2sq
+            self._call_gt_branch = lambda xl2sq, delta: delta * (snp.sqrt(xl2sq) - delta / 2.0)
             self._call = self._call_nonsep
             self._prox = self._prox_nonsep
 
@@ -445,7 +448,11 @@ class HuberNorm(Functional):
     def _call_nonsep(self, x: Union[Array, BlockArray]) -> float:
         xl2sq = snp.sum(snp.abs(x) ** 2)
         return lax.cond(
-            snp.sqrt(xl2sq) <= self.delta, self._call_lt_branch, self._call_gt_branch, xl2sq
+            snp.sqrt(xl2sq) <= self.delta,
+            self._call_lt_branch,
+            self._call_gt_branch,
+            xl2sq,
+            snp.asarray(self.delta, dtype=xl2sq.dtype),
         )
 
     def __call__(self, x: Union[Array, BlockArray]) -> float:
